@@ -23,6 +23,7 @@ type GenOpts struct {
 	KeyUpdates int // percent of UPDATEs that assign a key column
 	WKind      [6]int
 	MultiRow   int // percent of inserts with more than one row
+	NullPct    int // percent of NULLs proposed for nullable columns (0: one in nine)
 }
 
 func pick(rnd *rand.Rand, vs []Val) Val { return vs[rnd.Intn(len(vs))] }
@@ -207,9 +208,11 @@ func (sc *Schema) SetupSQL() []string {
 
 // ---- statement generation ----
 
+// foldingCol: a string column whose collation order is not the byte order; such columns are never
+// used in WHERE comparisons or ORDER BY (only key equality is modelled for them).
 func (sc *Schema) foldingCol(ci int) bool {
 	c := sc.T.Cols[ci].Type
-	return c.Kind == KStr && (c.Coll == CollAiCi || c.Coll == CollGeneralCi)
+	return c.Kind == KStr && c.Coll != CollBin
 }
 
 func (sc *Schema) value(rnd *rand.Rand, ci int, allowBad bool) Val {
@@ -222,8 +225,14 @@ func (sc *Schema) value(rnd *rand.Rand, ci int, allowBad bool) Val {
 			return pick(rnd, sc.Bad[ci])
 		}
 	}
-	if !c.NotNull && rnd.Intn(9) == 0 {
-		return Null
+	if !c.NotNull {
+		if sc.Opts.NullPct == 0 {
+			if rnd.Intn(9) == 0 {
+				return Null
+			}
+		} else if rnd.Intn(100) < sc.Opts.NullPct {
+			return Null
+		}
 	}
 	return pick(rnd, sc.Pool[ci])
 }
@@ -301,7 +310,7 @@ keys:
 		for i, ci := range k.Cols {
 			ct := t.Cols[ci].Type
 			if (!k.Primary && !t.Cols[ci].NotNull) || (i < len(k.Prefix) && k.Prefix[i] > 0) ||
-				(ct.Kind == KStr && (ct.Coll == CollAiCi || ct.Coll == CollGeneralCi)) {
+				(ct.Kind == KStr && ct.Coll != CollBin) {
 				continue keys
 			}
 		}
@@ -312,7 +321,7 @@ keys:
 	} else {
 		for ci := range t.Cols {
 			ct := t.Cols[ci].Type
-			if ct.Kind == KStr && (ct.Coll == CollAiCi || ct.Coll == CollGeneralCi) {
+			if ct.Kind == KStr && ct.Coll != CollBin {
 				return nil
 			}
 		}
@@ -323,7 +332,7 @@ keys:
 		// lead with some other column: the key then only breaks ties
 		ci := rnd.Intn(len(t.Cols))
 		ct := t.Cols[ci].Type
-		if !(ct.Kind == KStr && (ct.Coll == CollAiCi || ct.Coll == CollGeneralCi)) {
+		if !(ct.Kind == KStr && ct.Coll != CollBin) {
 			dup := false
 			for _, b := range base {
 				dup = dup || b == ci
@@ -581,15 +590,17 @@ func (sc *Schema) Next(rnd *rand.Rand) *Stmt {
 }
 
 // NeFractionalOnIndexedDecimal is the input class of a known finding: `col <> literal` where col is a
-// DECIMAL column leading some index and the literal has a non-zero fractional part (the index range
+// DECIMAL column that is part of some index and the literal has a non-zero fractional part (the index range
 // built for it is (NULL, ∞), so rows equal to the literal are selected as well).
 func NeFractionalOnIndexedDecimal(t *Table, ci int, v Val) bool {
 	if t.Cols[ci].Type.Kind != KDec || v.Null || v.Kind != KDec || v.Scale == 0 || v.I%pow10[v.Scale] == 0 {
 		return false
 	}
 	for _, k := range t.Keys {
-		if len(k.Cols) > 0 && k.Cols[0] == ci {
-			return true
+		for _, c := range k.Cols {
+			if c == ci {
+				return true
+			}
 		}
 	}
 	return false
